@@ -120,12 +120,18 @@ impl ItemPath {
         // consider making this a result
         assert!(path.is_relative());
 
-        ItemPath(
-            path.with_extension("")
-                .iter()
-                .map(|s| s.to_string_lossy().as_ref().into())
-                .collect(),
-        )
+        // Only the extension of the file name goes. `Path::with_extension` would also turn
+        // `dir/..pyxis` into `dir/.`, which as a path is just `dir`.
+        let mut segments: Vec<String> = path
+            .iter()
+            .map(|s| s.to_string_lossy().into_owned())
+            .collect();
+        if let Some(file_name) = segments.last_mut() {
+            if let Some(dot) = file_name.rfind('.').filter(|dot| *dot > 0) {
+                file_name.truncate(dot);
+            }
+        }
+        ItemPath(segments.iter().map(|s| s.as_str().into()).collect())
     }
 
     pub fn iter(&self) -> impl Iterator<Item = &ItemPathSegment> {
